@@ -165,6 +165,11 @@ def same_value(x, y):
     return abs(fx - fy) <= 1e-12 * max(1.0, abs(fx), abs(fy))
 
 
+class HarnessInterrupt(BaseException):
+    """What a custom atom constructor of the harness raises to model an interruption that is not an Exception
+    (KeyboardInterrupt, a timeout of gevent / trio / func_timeout ...)."""
+
+
 _PRELUDE = [False]
 
 
@@ -199,7 +204,7 @@ def solve_real(text, solver=None):
     es = solver or ExpressionSolver(AtomBase)
     try:
         r = es.solve(text)
-    except Exception as e:        # every exception escaping the public call counts as "rejected"
+    except (Exception, HarnessInterrupt) as e:        # every exception escaping the public call counts as "rejected"
         return ("err", type(e).__name__)
     if r is None:
         return ("none", None)
